@@ -64,25 +64,28 @@ Proof. vm_compute. reflexivity. Qed.
 
 (** ---- Connection level: the request path around the range arithmetic (Model/RangeConn.v) ----
     [serve_history] models [handle_cache] ([sanitize_request] once, before the cache lookup; the
-    cache-hit guard; the If-Modified-Since test on a hit; handler / error page; storing for GET/HEAD) followed
-    by [SendKind::send] (the range is applied to the content-encoded representation — not to a 304 —, 416
-    short-circuit, content-length of the slice, no body for HEAD).  For every page (= its representations per
-    Accept-Encoding class), every handler status but 304, every state of the response cache that is absent or
-    holds this page, both arithmetic modes and every history of GET/HEAD/other-method requests with any number
-    of Range header lines of arbitrary value, with or without If-Modified-Since: each reply is 416 when the
-    (last) Range line has start > end; else the 304 that the same request without Range receives; else
-    [range_spec] of the representation that a request WITHOUT Range receives under the same Accept-Encoding. *)
-Theorem range_conn_correct : forall (checked caching : bool) (status : N) (pg : page) (cache : option page) (reqs : list rreq),
-  page_fits pg -> cache_ok pg cache -> status <> 304 ->
-  serve_history checked caching status pg cache reqs = Ok (history_spec caching status pg (is_stored cache) reqs).
+    cache-hit guard; the If-Modified-Since test on a hit, which vouches only for a variant the cached item holds;
+    a request for another variant of a page with vary rules runs the handler and adds the variant; handler /
+    error page; storing for GET/HEAD) followed by [SendKind::send] (no body under a 1xx / 204 / 304 head; the
+    range is applied to the content-encoded representation — not to a 304 —, 416 short-circuit, content-length
+    of the slice, no body for HEAD).  For every page (= its representations per Accept-Encoding class), every
+    handler status but 304, every state of the response cache that is absent or holds variants of this page, both
+    arithmetic modes and every history of GET/HEAD/other-method requests of any variant class with any number of
+    Range header lines of arbitrary value, with or without If-Modified-Since: each reply is 416 when the (last)
+    Range line has start > end; else the 304 that the same request without Range receives; else [range_spec] of
+    the representation that a request WITHOUT Range receives under the same Accept-Encoding. *)
+Theorem range_conn_correct : forall (checked caching : bool) (status : N) (pg : page) (cache : option item) (reqs : list rreq),
+  page_fits pg -> vcache_ok pg cache -> status <> 304 ->
+  serve_history checked caching status pg cache reqs = Ok (history_spec caching status pg (held_by cache) reqs).
 Proof. exact serve_history_spec. Qed.
 
 (** The reply to a request that is not conditional is the same after every history prefix (cold, warmed by GET,
-    by HEAD, by a ranged or an unsatisfiable request, ...), with and without a response cache; the reply to a
-    conditional one depends on the prefix only through "the server holds the response". *)
+    by HEAD, by a ranged or an unsatisfiable request, by a request for another variant, ...), with and without a
+    response cache; the reply to a conditional one depends on the prefix only through "the server holds the
+    response this request selects". *)
 Theorem range_history_independent : forall (checked caching : bool) (status : N) (pg : page) (pre : list rreq) (q : rreq),
   page_fits pg -> status <> 304 -> fresh q = false ->
-  reply_after checked caching status pg pre q = Ok (reply_spec status pg false q).
+  reply_after checked caching status pg pre q = Ok (reply_spec status pg [] q).
 Proof. exact reply_after_independent. Qed.
 Theorem range_after_history : forall (checked caching : bool) (status : N) (pg : page) (pre : list rreq) (q : rreq),
   page_fits pg -> status <> 304 ->
@@ -91,20 +94,20 @@ Proof. exact reply_after_spec. Qed.
 
 (** HEAD has the GET reply's status and headers (content-range, content-length, content-encoding,
     accept-ranges) and no body, in every cache state. *)
-Theorem range_head_as_get : forall (checked caching : bool) (status : N) (pg : page) (cache : option page) (ae : N)
-    (hdrs : list bytes) (ims : N),
-  page_fits pg -> cache_ok pg cache -> status <> 304 ->
-  fst (rstep checked caching status pg cache {| rq_method := HEAD; rq_ae := ae; rq_ranges := hdrs; rq_ims := ims |})
-  = omap strip_body (fst (rstep checked caching status pg cache {| rq_method := GET; rq_ae := ae; rq_ranges := hdrs; rq_ims := ims |})).
+Theorem range_head_as_get : forall (checked caching : bool) (status : N) (pg : page) (cache : option item) (ae : N)
+    (hdrs : list bytes) (ims lang : N),
+  page_fits pg -> vcache_ok pg cache -> status <> 304 ->
+  fst (rstep checked caching status pg cache {| rq_method := HEAD; rq_ae := ae; rq_ranges := hdrs; rq_ims := ims; rq_lang := lang |})
+  = omap strip_body (fst (rstep checked caching status pg cache {| rq_method := GET; rq_ae := ae; rq_ranges := hdrs; rq_ims := ims; rq_lang := lang |})).
 Proof. exact head_as_get. Qed.
 
 (** The 206 body is the slice of the body of the un-ranged 200 reply of the same Accept-Encoding
     class (the encoded bytes), with the same content-encoding. *)
-Theorem range_slice_of_unranged : forall (pg : page) (ae : N) (v : bytes) (more : list bytes) (a c : N),
+Theorem range_slice_of_unranged : forall (pg : page) (ae lang : N) (v : bytes) (more : list bytes) (a c : N),
   parse_range v = Some (a, c) -> a <= c -> a < N.of_nat (length (rp_body (choose pg ae))) ->
   exists full part,
-    reply_spec 200 pg false {| rq_method := GET; rq_ae := ae; rq_ranges := []; rq_ims := 0 |} = WResp full /\
-    reply_spec 200 pg false {| rq_method := GET; rq_ae := ae; rq_ranges := more ++ [v]; rq_ims := 0 |} = WResp part /\
+    reply_spec 200 pg [] {| rq_method := GET; rq_ae := ae; rq_ranges := []; rq_ims := 0; rq_lang := lang |} = WResp full /\
+    reply_spec 200 pg [] {| rq_method := GET; rq_ae := ae; rq_ranges := more ++ [v]; rq_ims := 0; rq_lang := lang |} = WResp part /\
     w_status full = 200 /\ w_status part = 206 /\
     w_content_encoding part = w_content_encoding full /\
     w_body part = firstn (N.to_nat (N.min c (w_content_length full - 1) - a + 1)) (skipn (N.to_nat a) (w_body full)) /\
@@ -112,12 +115,13 @@ Theorem range_slice_of_unranged : forall (pg : page) (ae : N) (v : bytes) (more 
 Proof. exact ranged_is_slice_of_unranged. Qed.
 
 (** Tiling on the connection: consecutive ranged GETs that tile the (encoded) representation of an Accept-Encoding
-    class are all answered and the concatenation of their bodies is that representation — in every cache state. *)
-Theorem range_conn_tiling : forall (checked caching : bool) (pg : page) (cache : option page) (ae : N) (ws : list N),
-  page_fits pg -> cache_ok pg cache ->
+    class are all answered and the concatenation of their bodies is that representation — in every cache state,
+    for every variant class. *)
+Theorem range_conn_tiling : forall (checked caching : bool) (pg : page) (cache : option item) (ae lang : N) (ws : list N),
+  page_fits pg -> vcache_ok pg cache ->
   Forall (fun w => 0 < w) ws -> sumN ws = N.of_nat (length (rp_body (choose pg ae))) ->
   exists replies,
-    serve_history checked caching 200 pg cache (map (get_range ae) (tile_ranges 0 ws)) = Ok replies /\
+    serve_history checked caching 200 pg cache (map (get_range ae lang) (tile_ranges 0 ws)) = Ok replies /\
     concat (map wbody replies) = rp_body (choose pg ae).
 Proof. exact conn_tiling. Qed.
 
@@ -125,37 +129,49 @@ Proof. exact conn_tiling. Qed.
     reply to a request is the property's function [ranged_of] of the reply that the same request without any
     Range line receives in that state (416 for start > end; a 304 stays that 304; otherwise range_spec of the
     body of that reply, same content-encoding). *)
-Theorem range_of_unranged : forall (checked caching : bool) (status : N) (pg : page) (cache : option page) (q : rreq),
-  page_fits pg -> cache_ok pg cache -> status <> 304 -> rq_method q <> HEAD ->
+Theorem range_of_unranged : forall (checked caching : bool) (status : N) (pg : page) (cache : option item) (q : rreq),
+  page_fits pg -> vcache_ok pg cache -> status <> 304 -> rq_method q <> HEAD ->
   fst (rstep checked caching status pg cache q)
   = omap (ranged_of (rq_range q)) (fst (rstep checked caching status pg cache (unranged q))).
 Proof. exact ranged_of_unranged. Qed.
 
-(** Conditional requests: the server holds the response, the client's copy is fresh, GET/HEAD, Range not
-    refused: 304, exactly as without the Range header. *)
-Theorem range_conditional : forall (checked caching : bool) (status : N) (pg : page) (q : rreq),
-  page_fits pg -> status <> 304 -> get_or_head (rq_method q) = true -> fresh q = true ->
+(** Conditional requests: the server holds the response the request selects (the cached item has the variant of
+    the request's class), the client's copy is fresh, GET/HEAD, Range not refused: 304, exactly as without the
+    Range header. *)
+Theorem range_conditional : forall (checked caching : bool) (status : N) (pg : page) (it : item) (q : rreq),
+  page_fits pg -> vcache_ok pg (Some it) -> holds (map fst it) (rq_lang q) = true ->
+  status <> 304 -> get_or_head (rq_method q) = true -> fresh q = true ->
   rejected (rq_range q) = false ->
-  fst (rstep checked caching status pg (Some pg) q) = Ok not_modified /\
-  fst (rstep checked caching status pg (Some pg) (unranged q)) = Ok not_modified.
+  fst (rstep checked caching status pg (Some it) q) = Ok not_modified /\
+  fst (rstep checked caching status pg (Some it) (unranged q)) = Ok not_modified.
 Proof. exact conditional_304. Qed.
+
+(** ... and a cached item that holds other variants of the page, not the one the request selects, gives no 304:
+    the request is answered with the (ranged) representation, conditional or not. *)
+Theorem range_conditional_other_variant : forall (checked caching : bool) (status : N) (pg : page) (it : item) (q : rreq),
+  page_fits pg -> vcache_ok pg (Some it) -> holds (map fst it) (rq_lang q) = false ->
+  status <> 304 -> rejected (rq_range q) = false ->
+  fst (rstep checked caching status pg (Some it) q)
+  = Ok (wire_spec status (rq_method q) (choose pg (rq_ae q)) (rq_range q)).
+Proof. exact conditional_other_variant. Qed.
 
 (** kvarn 0.6.3 (before the repair in SendKind::send) answered 416 where the request without Range got 304. *)
 Theorem range_conditional_063_refuted :
   exists pg q, page_fits pg /\ get_or_head (rq_method q) = true /\ fresh q = true /\ rejected (rq_range q) = false /\
-    fst (rstep_063 true true 200 pg (Some pg) (unranged q)) = Ok not_modified /\
-    fst (rstep_063 true true 200 pg (Some pg) q) = Ok W416.
+    fst (rstep_063 true true 200 pg (Some [(rq_lang q, pg)]) (unranged q)) = Ok not_modified /\
+    fst (rstep_063 true true 200 pg (Some [(rq_lang q, pg)]) q) = Ok W416.
 Proof. exact conditional_063_refuted. Qed.
 
 (** Several Range header lines (HTTP/1.1): only the last one is looked at. *)
-Theorem range_last_line : forall (checked caching : bool) (status : N) (pg : page) (cache : option page) (m : meth) (ae : N)
-    (v : bytes) (more : list bytes) (ims : N),
-  rstep checked caching status pg cache {| rq_method := m; rq_ae := ae; rq_ranges := more ++ [v]; rq_ims := ims |}
-  = rstep checked caching status pg cache {| rq_method := m; rq_ae := ae; rq_ranges := [v]; rq_ims := ims |}.
+Theorem range_last_line : forall (checked caching : bool) (status : N) (pg : page) (cache : option item) (m : meth) (ae : N)
+    (v : bytes) (more : list bytes) (ims lang : N),
+  rstep checked caching status pg cache {| rq_method := m; rq_ae := ae; rq_ranges := more ++ [v]; rq_ims := ims; rq_lang := lang |}
+  = rstep checked caching status pg cache {| rq_method := m; rq_ae := ae; rq_ranges := [v]; rq_ims := ims; rq_lang := lang |}.
 Proof. exact last_range_line. Qed.
 
-(** Files streamed by [extensions::stream_body] (repaired): every request is answered by the property's
-    [range_spec] of the file's bytes — 206 + content-range + the slice, 416, or the whole file. *)
+(** Files streamed by [extensions::stream_body] (repaired): every request — GET, HEAD (the head alone), any
+    other method — is answered by the property's [range_spec] of the file's bytes: 206 + content-range + the
+    slice, 416, or the whole file. *)
 Theorem range_stream_correct : forall (checked : bool) (file : bytes) (reqs : list rreq),
   N.of_nat (length file) <= u64_max ->
   stream_history true checked file reqs = Ok (map (stream_spec file) reqs).
@@ -185,11 +201,11 @@ Proof. exact ex_page_fits. Qed.
     a POST with a Range header; a HEAD with two Range lines. *)
 Example range_conn_ex_history :
   serve_history true true 200 ex_page None
-    [ {| rq_method := GET; rq_ae := 0; rq_ranges := []; rq_ims := 0 |};
-      {| rq_method := GET; rq_ae := 0; rq_ranges := [B "bytes=7-2"]; rq_ims := 1 |};
-      {| rq_method := GET; rq_ae := 0; rq_ranges := [B "bytes=2-4"]; rq_ims := 1 |};
-      {| rq_method := POST; rq_ae := 0; rq_ranges := [B "bytes=2-4"]; rq_ims := 1 |};
-      {| rq_method := HEAD; rq_ae := 1; rq_ranges := [B "bytes=0-0"; B "bytes=3-100"]; rq_ims := 2 |} ]
+    [ {| rq_method := GET; rq_ae := 0; rq_ranges := []; rq_ims := 0; rq_lang := 0 |};
+      {| rq_method := GET; rq_ae := 0; rq_ranges := [B "bytes=7-2"]; rq_ims := 1; rq_lang := 0 |};
+      {| rq_method := GET; rq_ae := 0; rq_ranges := [B "bytes=2-4"]; rq_ims := 1; rq_lang := 0 |};
+      {| rq_method := POST; rq_ae := 0; rq_ranges := [B "bytes=2-4"]; rq_ims := 1; rq_lang := 0 |};
+      {| rq_method := HEAD; rq_ae := 1; rq_ranges := [B "bytes=0-0"; B "bytes=3-100"]; rq_ims := 2; rq_lang := 0 |} ]
   = Ok [ WResp {| w_status := 200; w_content_range := None; w_content_length := 10;
                   w_content_encoding := Some (B "identity"); w_accept_ranges := true; w_body := B "0123456789" |};
          W416;
@@ -199,13 +215,41 @@ Example range_conn_ex_history :
          WResp {| w_status := 206; w_content_range := Some (B "bytes 3-11/12"); w_content_length := 9;
                   w_content_encoding := Some (B "gzip"); w_accept_ranges := false; w_body := [] |} ].
 Proof. vm_compute. reflexivity. Qed.
+(** a page with a vary rule: the conditional ranged GET of class 2 on a cache that holds class 0 only is answered
+    206 (the handler runs, class 2 joins the item); the same request again: 304; class 0 is still held: 304 *)
+Example range_conn_ex_variants :
+  serve_history true true 200 ex_page None [ unranged ex_conditional; ex_conditional_other; ex_conditional_other; ex_conditional ]
+  = Ok [ WResp {| w_status := 200; w_content_range := None; w_content_length := 10;
+                  w_content_encoding := Some (B "identity"); w_accept_ranges := true; w_body := B "0123456789" |};
+         WResp {| w_status := 206; w_content_range := Some (B "bytes 0-3/10"); w_content_length := 4;
+                  w_content_encoding := Some (B "identity"); w_accept_ranges := false; w_body := B "0123" |};
+         not_modified;
+         not_modified ].
+Proof. vm_compute. reflexivity. Qed.
+Example range_conn_ex_other_variant :
+  vcache_ok ex_page (Some [(0, ex_page)]) /\ holds (map fst [(0, ex_page)]) (rq_lang ex_conditional_other) = false /\
+  holds (map fst [(0, ex_page)]) (rq_lang ex_conditional) = true /\ rejected (rq_range ex_conditional_other) = false.
+Proof. split; [repeat constructor|vm_compute; repeat split; reflexivity]. Qed.
+(** a handler's 204 with a body: the un-ranged reply is the head alone (the headers stay), so every range that is
+    not refused starts after the end of what a request without Range receives: 416 *)
+Example range_conn_ex_204 :
+  serve_history true true 204 ex_page None
+    [ {| rq_method := GET; rq_ae := 0; rq_ranges := []; rq_ims := 0; rq_lang := 0 |};
+      {| rq_method := GET; rq_ae := 0; rq_ranges := [B "bytes=0-3"]; rq_ims := 0; rq_lang := 0 |};
+      {| rq_method := GET; rq_ae := 0; rq_ranges := [B "bytes=-3"]; rq_ims := 0; rq_lang := 0 |} ]
+  = Ok [ WResp {| w_status := 204; w_content_range := None; w_content_length := 0;
+                  w_content_encoding := Some (B "identity"); w_accept_ranges := false; w_body := [] |};
+         W416;
+         WResp {| w_status := 204; w_content_range := None; w_content_length := 0;
+                  w_content_encoding := Some (B "identity"); w_accept_ranges := false; w_body := [] |} ].
+Proof. vm_compute. reflexivity. Qed.
 Example range_conn_ex_cached_state :
-  fst (rstep false true 404 ex_page (Some ex_page) {| rq_method := GET; rq_ae := 1; rq_ranges := [B "bytes=0-3"]; rq_ims := 0 |})
+  fst (rstep false true 404 ex_page (Some [(0, ex_page)]) {| rq_method := GET; rq_ae := 1; rq_ranges := [B "bytes=0-3"]; rq_ims := 0; rq_lang := 0 |})
   = Ok (WResp {| w_status := 404; w_content_range := Some (B "bytes 0-3/12"); w_content_length := 4;
                  w_content_encoding := Some (B "gzip"); w_accept_ranges := false; w_body := B "GZIP" |}).
 Proof. vm_compute. reflexivity. Qed.
 Example range_conn_ex_tiling :
-  serve_history true true 200 ex_page None (map (get_range 1) (tile_ranges 0 [5; 1; 6]))
+  serve_history true true 200 ex_page None (map (get_range 1 0) (tile_ranges 0 [5; 1; 6]))
   = Ok [ WResp {| w_status := 206; w_content_range := Some (B "bytes 0-4/12"); w_content_length := 5;
                   w_content_encoding := Some (B "gzip"); w_accept_ranges := false; w_body := B "GZIPP" |};
          WResp {| w_status := 206; w_content_range := Some (B "bytes 5-5/12"); w_content_length := 1;
@@ -217,10 +261,12 @@ Example range_conn_ex_conditional :
   get_or_head (rq_method ex_conditional) = true /\ fresh ex_conditional = true /\ rejected (rq_range ex_conditional) = false.
 Proof. vm_compute. repeat split; reflexivity. Qed.
 Example range_stream_ex :
-  stream_history true true ex_file [ex_get (B "bytes=8-20"); ex_get (B "bytes=10-12"); ex_get (B "bytes=-3")]
+  stream_history true true ex_file [ex_get (B "bytes=8-20"); ex_get (B "bytes=10-12"); ex_get (B "bytes=-3"); ex_head (B "bytes=2-5")]
   = Ok [ SResp {| w_status := 206; w_content_range := Some (B "bytes 8-9/10"); w_content_length := 2;
                   w_content_encoding := None; w_accept_ranges := false; w_body := B "89" |};
          S416;
          SResp {| w_status := 200; w_content_range := None; w_content_length := 10;
-                  w_content_encoding := None; w_accept_ranges := false; w_body := B "0123456789" |} ].
+                  w_content_encoding := None; w_accept_ranges := false; w_body := B "0123456789" |};
+         SResp {| w_status := 206; w_content_range := Some (B "bytes 2-5/10"); w_content_length := 4;
+                  w_content_encoding := None; w_accept_ranges := false; w_body := [] |} ].
 Proof. vm_compute. reflexivity. Qed.
